@@ -266,7 +266,7 @@ def explore(fn, timeout_ms=10000, maxpaths=100000, index_cap=64, setup=None):
         d['choice'] = False
         decisions[-1] = d
         if npaths >= maxpaths:
-            raise RuntimeError('path budget exceeded')
+            raise RuntimeError('path budget of %d exceeded' % maxpaths)
 
 
 # --------------------------------------------------------------------------- proxies
